@@ -34,6 +34,14 @@ func (s *LStack[T]) Push(item T) {
 	s.mu.Lock()
 	defer s.mu.Unlock()
 
+	if s.n == 0 {
+		// The stack has been emptied: start a fresh list instead
+		// of appending after the leftover head node.
+		s.list = list.InitDList(item)
+		s.n = 1
+		return
+	}
+
 	s.n++
 	s.list.Append(item)
 }
@@ -44,10 +52,17 @@ func (s *LStack[T]) Pop() (item T) {
 	s.mu.Lock()
 	defer s.mu.Unlock()
 
-	node := s.list.Pop()
-	if s.n > 0 {
-		s.n--
+	if s.n == 0 {
+		return item
 	}
+	if s.n == 1 {
+		// The list cannot drop its only node: hand out its value and mark the stack empty.
+		s.n = 0
+		return s.list.First()
+	}
+
+	node := s.list.Pop()
+	s.n--
 
 	return s.list.Val(node)
 }
@@ -57,6 +72,11 @@ func (s *LStack[T]) Peek() T {
 	s.mu.RLock()
 	defer s.mu.RUnlock()
 
+	if s.n == 0 {
+		var item T
+		return item
+	}
+
 	return s.list.Last()
 }
 
@@ -64,6 +84,10 @@ func (s *LStack[T]) Peek() T {
 func (s *LStack[T]) Search(item T) bool {
 	s.mu.RLock()
 	defer s.mu.RUnlock()
+
+	if s.n == 0 {
+		return false
+	}
 
 	if _, ok := s.list.Find(item); ok {
 		return true
